@@ -61,6 +61,7 @@ type Property struct {
 	NonTrivial func(ep *Episode) bool
 	Rule       string
 	Standalone func(t *testing.T, p *Property) // properties with their own episode loop (C04 layer Q, ...)
+	Pre        func(p *Property, sum *Summary, fingers map[uint64]bool, deadline time.Time, budget time.Duration) bool // runs before the generic loop; true = stop (violation or infra)
 	Derive     func(ep *Episode, r *simrt.Rand, tier string) []Cfg // further configurations to run with the same program and tape (crash sweep)
 	NoRerun    bool                            // violations cannot be re-run in the same process (race reports are deduplicated by the detector)
 }
@@ -179,12 +180,12 @@ func TestVerif(t *testing.T) {
 		t.Fatalf("unknown property %s", *fProp)
 	}
 	loadKnown()
-	if *fMode == "replay" {
-		os.Exit(replayMain(p))
-	}
 	if p.Standalone != nil {
 		p.Standalone(t, p)
 		return
+	}
+	if *fMode == "replay" {
+		os.Exit(replayMain(p))
 	}
 	exploreMain(p)
 }
@@ -204,7 +205,11 @@ func exploreMain(p *Property) {
 	if *fProgress != "" {
 		prog, _ = os.Create(*fProgress)
 	}
-	for i := 0; ; i++ {
+	preStop := false
+	if p.Pre != nil {
+		preStop = p.Pre(p, sum, fingers, deadline, time.Duration(*fSecs*float64(time.Second)))
+	}
+	for i := 0; !preStop; i++ {
 		if *fMaxEp > 0 && i >= *fMaxEp {
 			break
 		}
@@ -438,6 +443,16 @@ func replayMain(p *Property) int {
 	if err := json.Unmarshal(b, &rf); err != nil {
 		fmt.Println("bad replay file:", err)
 		return 2
+	}
+	if rf.Cfg.Prop == "C04Q" {
+		res := c04LayerQ(rf.Seed, *fTier)
+		clause, msg, _ := c04Check(res)
+		if clause == "" {
+			fmt.Printf("NOT REPRODUCED: property=%s clause=%s no longer fails on this tree\n", rf.Property, rf.Clause)
+			return 0
+		}
+		fmt.Printf("REPRODUCED clause=%s: %s\nVIOLATION property=%s replay=%s\n", clause, msg, rf.Property, *fReplay)
+		return 1
 	}
 	ep := runEpisode(p, rf.Cfg, rf.Prog, rf.Seed, rf.Tape, true)
 	v := p.firstOwned(ep.Viols)
